@@ -50,7 +50,7 @@ os.environ.setdefault('QISKIT_IN_PARALLEL', 'TRUE')
 COUNTS = {
     #            random RT   programs   expressions   ext(qiskit)  ext(pytket/cirq)
     'quick':    {'rt': 260,  'prog': 420,  'expr': 700,   'ext': 40,  'ext_other': 0},
-    'thorough': {'rt': 4000, 'prog': 9000, 'expr': 16000, 'ext': 400, 'ext_other': 60},
+    'thorough': {'rt': 3000, 'prog': 7000, 'expr': 14000, 'ext': 300, 'ext_other': 60},
 }
 TOL = 1e-10           # cost1 budget (statement: equal up to global phase)
 PHASE_TOL = 1e-7      # phase-aligned max element difference (round trip)
@@ -666,7 +666,7 @@ def _judge_expr(e: list, mode: int, vals: list[float], inner: list[list] | None,
     progress = True
     while progress and evals < SHRINK_BUDGET:
         progress = False
-        cur_f = state_features(state) | {'lit:int'}
+        cur_f = state_features(state) | {'lit:int', 'lit:neg'}
         for cand in state_candidates(state):
             # monotone: a step may not introduce a construct
             if not state_features(cand) <= cur_f:
@@ -1348,7 +1348,7 @@ def main(tier: str, seed: int, replay: str | None = None) -> int:
         ('rt_param_vectors_compared', 20), ('prog_unitary_compared', 30), ('prog_structure_compared', 30),
         ('expr_values_compared', 50), ('prog_measure_labels', 5), ('prog_reset_labels', 5), ('prog_barrier_labels', 5),
         ('compared_feat:multi_qreg', 10), ('compared_feat:nested_userdef', 5), ('compared_feat:body_formal', 10),
-        ('compared_feat:paren', 5), ('compared_feat:pow', 5), ('compared_feat:usub', 10), ('compared_feat:pi', 10),
+        ('compared_feat:paren', 5), ('compared_feat:pow', 5), ('compared_feat:usub', 5), ('compared_feat:pi', 10),
     ):
         run.require(c, m)
     programs = (
